@@ -67,8 +67,12 @@ def cases(draw):
             o['forbidden'] = True
         return o
     n = 1 if position in ('doc', 'union') else draw(st.integers(1, 2 if position == 'attr' else 3))
+    # a class whose own _yatiml_recognize describes only its own format (a
+    # marker key that its savorize removes): it rejects its subclasses' documents
+    strict_at = draw(st.one_of(st.none(), st.none(), st.integers(0, d - 1)))
     return {'depth': d, 'top': top, 'mix_at': mix_at, 'sib_at': sib_at, 'hooks': hooks,
             'word_cls': word_cls, 'raise_cls': raise_cls, 'position': position,
+            'strict_at': strict_at,
             'objs': [obj() for _ in range(n)],
             'order_rev': draw(st.booleans()), 'mix_first': draw(st.booleans())}
 
@@ -81,8 +85,11 @@ def build_spec(case):
     def hook_fields(name, idx=None):
         h = hooks[name]
         out = {}
-        if h['savorize'] or (idx is not None and idx in (case['word_cls'], case['raise_cls'])):
+        strict = case.get('strict_at')
+        if h['savorize'] or (idx is not None and idx in (case['word_cls'], case['raise_cls'], strict)):
             ops = []
+            if idx is not None and idx == strict:
+                ops.append(['remove', 'tag%d' % idx])
             if idx is not None and idx == case['word_cls']:
                 ops.append(['word_to_int', 'p0', [['seven', 7]]])
             if idx is not None and idx == case['raise_cls']:
@@ -90,11 +97,13 @@ def build_spec(case):
             out['savorize'] = ops
         if h['sweeten']:
             out['sweeten'] = []
-        if h['recognize'] or (idx is not None and idx == case['word_cls']):
+        if h['recognize'] or (idx is not None and idx in (case['word_cls'], strict)):
             if idx is None:
                 out['recognize'] = 'permissive'
             else:
                 out['recognize'] = [['mapping']] + [['attr', 'p%d' % j] for j in range(idx + 1)]
+                if idx == strict:
+                    out['recognize'].append(['attr', 'tag%d' % idx])
         return out
     if case['top']:
         classes.append(dict({'name': 'Top', 'kind': 'obj', 'bases': [], 'params': [], 'reg': False},
@@ -141,8 +150,10 @@ def build_spec(case):
     return {'classes': classes, 'doc_type': doc_type, 'order': order}
 
 
-def obj_text(o, word_ok=True):
+def obj_text(o, word_ok=True, strict=None):
     parts = []
+    if strict is not None and o['cls'] == strict:
+        parts.append('tag%d: 1' % strict)
     for j, v in enumerate(o['vals']):
         parts.append('p%d: %s' % (j, 'seven' if (j == 0 and o.get('word')) else v))
     if o.get('forbidden'):
@@ -152,7 +163,7 @@ def obj_text(o, word_ok=True):
 
 def doc_text(case):
     pos = case['position']
-    ts = [obj_text(o) for o in case['objs']]
+    ts = [obj_text(o, strict=case.get('strict_at')) for o in case['objs']]
     if pos in ('doc', 'union'):
         return ts[0]
     if pos in ('list', 'optlist'):
@@ -170,7 +181,7 @@ def chain(case, i, hook):
         n = 'K%d' % j
         h = case['hooks'][n]
         defined = h[hook]
-        if hook == 'savorize' and j in (case['word_cls'], case['raise_cls']):
+        if hook == 'savorize' and j in (case['word_cls'], case['raise_cls'], case.get('strict_at')):
             defined = True
         if defined:
             out.append(n)
@@ -394,7 +405,7 @@ def check(case, ctx):
     for o in case['objs']:
         ch = chain(case, o['cls'], 'savorize')
         kn = 'K%d' % o['cls']
-        has_rec = case['hooks'][kn]['recognize'] or case['word_cls'] == o['cls']
+        has_rec = case['hooks'][kn]['recognize'] or o['cls'] in (case['word_cls'], case.get('strict_at'))
         if ch and has_rec:
             first = idx_sav[pos_]
             if not any(x[0] == 'recognize' and x[1] == kn for x in log[:first]):
